@@ -222,7 +222,7 @@ class SimRaw(io.RawIOBase):
     plan keys (all optional): ``fail_at_byte`` (ENOSPC/EIO once that many bytes were accepted; a write
     crossing the limit is accepted short first), ``fail_write_call`` (k-th raw write raises),
     ``short`` (accept at most that many bytes per raw write), ``fail_close`` (close raises after
-    releasing the device), ``errno`` name.
+    releasing the device, and the last raw write is lost: a deferred write error), ``errno`` name.
     """
 
     def __init__(self, path, plan=None):
@@ -233,6 +233,7 @@ class SimRaw(io.RawIOBase):
         self.writes = 0
         self.fired = []
         self.released = False
+        self.last_write_start = 0
 
     def writable(self):
         return True
@@ -260,6 +261,7 @@ class SimRaw(io.RawIOBase):
             if room <= 0:
                 raise self._err("byte%d" % lim)
             n = min(n, room)
+        self.last_write_start = len(self.data)
         self.data += b[:n]
         return n
 
@@ -269,6 +271,8 @@ class SimRaw(io.RawIOBase):
         super().close()
         self.released = True
         if self.plan.get("fail_close"):
+            # a deferred write error reported by close() (NFS, quota): the data of the last raw write never made it
+            del self.data[self.last_write_start:]
             raise self._err("close")
 
 
